@@ -31,7 +31,9 @@ ASSUMPTIONS = [
 ]
 JUDGE_SHARDS = 16
 
-IDS = {1: 0x50000A01, 2: 0x50000A02, 3: 0x50000A03, 4: 0x5000FFFF}
+IDS = {1: 0x50000A01, 2: 0x50000A02, 3: 0x50000A03, 4: 0x5000FFFF,
+       5: 0x00001234,     # leading zeros: only names holding all 8 digits qualify
+       6: 0x00000000}
 
 
 def model_checks(tier):
@@ -63,7 +65,7 @@ def cases(tier, seed, info):
             kd = rng.choice(kinds)
             c = dict(k=kd)
             if kd in ('id', 'delete', 'count+delete', 'plid+delete', 'plid'):
-                c['id'] = rng.choice([1, 1, 2, 3, 4])
+                c['id'] = rng.choice([1, 1, 2, 3, 4, 5, 5, 6])
             if kd in ('file', 'fileclean', 'filehex'):
                 c['f'] = rng.choice(tops)
             cmds.append(c)
@@ -131,6 +133,11 @@ def build_tree(root, tree0, rng, extra=0):
         eid = 0x50000B00 + k
         nm = rng.choice(['%08X', 'x%08X.pel', '%08X_%08X' % (IDS[1], eid) if False else 'log_%08X', '.%08X'])
         put(nm % eid if '%' in nm else nm, _pel(eid, hidden=rng.random() < .3), eid)
+    if rng.random() < .5:
+        # ids with leading zeros, next to names that contain only the significant digits
+        put('2023010112000000_50001234', _pel(0x50001234), 0x50001234)
+        if rng.random() < .6:
+            put('2023010112000001_00001234', _pel(0x00001234), 0x00001234)
     with open(os.path.join(root, 'exclude.txt'), 'w') as f:
         f.write('BD8D0A02\n')
     return names, eids
